@@ -881,11 +881,17 @@ int main(int argc, char** argv) {
                 Runner::Shape sh = rn.shapeOf(t, tt);
                 if (sh.total == 0) st.inconclusive++;
                 else {
-                    // every stop point of phases 1/2 would be 2*80; take a seeded subset of `points` per slice, always including all iteration points
+                    // 4 men: 321 + N points.  Order: retrograde-iteration points and seeded time-check points alternately
+                    // (all iteration points come first), slice k takes every `slices`-th, at most `points`.
                     auto pts = rn.faultPoints(sh);
-                    std::vector<int> order = perm((int)pts.size(), a.seed * 77 + 4 + vh::fnv(t.name));
-                    std::vector<std::pair<std::string, long>> sel;
-                    for (int i : order) sel.push_back(pts[i]);
+                    std::vector<std::pair<std::string, long>> iterPts, chkPts, sel;
+                    for (auto& pt : pts) (pt.first == "stop" && Runner::phaseOfCall(sh, pt.second) == 3 ? iterPts : chkPts).push_back(pt);
+                    std::vector<int> order = perm((int)chkPts.size(), a.seed * 77 + 4 + vh::fnv(t.name));
+                    for (size_t i = 0; i < std::max(iterPts.size(), chkPts.size()); i++) {
+                        if (i < iterPts.size()) sel.push_back(iterPts[i]);
+                        if (i < chkPts.size()) sel.push_back(chkPts[order[i]]);
+                    }
+                    rn.classPoints = (long)pts.size();
                     rn.faultSweep(t, tt, nullptr, &vec, sh, sel, k % slices, slices, a.num("inserts", 1000000), a.num("fsamples", 400000), 0, a.num("points", 6));
                 }
             }
